@@ -41,6 +41,7 @@ type Server struct {
 	exitErr  error
 	hc       *nethttp.Client
 	conn     *grpc.ClientConn
+	noPoll   bool // the configuration under test does not open the poll transport's port
 }
 
 // freePort hands out loopback ports from a range private to this process
@@ -146,7 +147,11 @@ func (s *Server) start1() error {
 			io.Copy(io.Discard, res.Body)
 			res.Body.Close()
 			ok := true
-			for _, a := range []string{s.grpcAddr, s.pollAddr} {
+			addrs := []string{s.grpcAddr, s.pollAddr}
+			if s.noPoll {
+				addrs = addrs[:1]
+			}
+			for _, a := range addrs {
 				c, err := net.DialTimeout("tcp", a, time.Second)
 				if err != nil {
 					ok = false
